@@ -843,6 +843,46 @@ fn statement_sources() -> Vec<String> {
     for d in decls {
         out.push(format!("{}\n", d));
     }
+    out.extend(declarator_sources());
+    out
+}
+
+/// every declarator over {pointer (plain / const / volatile / const volatile), reference, pointer to pointer, reference to
+/// pointer} x {no array, [2], [2][3]} plus the parenthesised pointer/reference-to-array forms, alone and in every ordered
+/// pair inside one declaration (local variable, struct member, global), and alone as a parameter
+fn declarator_forms() -> Vec<String> {
+    let prefixes = ["", "*", "* const ", "* volatile ", "* const volatile ", "&", "**", "* const *", "** const ", "*&", "* const &"];
+    let suffixes = ["", "[2]", "[2][3]"];
+    let mut v = Vec::new();
+    for p in prefixes {
+        for s in suffixes {
+            v.push(format!("{}N{}", p, s));
+        }
+    }
+    for f in ["(*N)[2]", "(* const N)[2]", "(&N)[2]", "(*N[2])[3]"] {
+        v.push(f.to_string());
+    }
+    v
+}
+
+fn declarator_sources() -> Vec<String> {
+    let forms = declarator_forms();
+    let mut out = Vec::new();
+    for a in &forms {
+        let da = a.replace('N', "a");
+        for base in ["float", "const float", "S"] {
+            out.push(format!("void f() {{ {} {}; }}\n", base, da));
+            out.push(format!("void f({} {}) {{}}\n", base, da));
+            out.push(format!("struct Q {{ {} {}; }};\n", base, da));
+        }
+        out.push(format!("void f() {{ float {} = x; }}\n", da));
+        for b in &forms {
+            let db = b.replace('N', "b");
+            out.push(format!("void f() {{ float {}, {}; }}\n", da, db));
+            out.push(format!("struct Q {{ float {}, {}; }};\n", da, db));
+            out.push(format!("static float {}, {};\n", da, db));
+        }
+    }
     out
 }
 
